@@ -7,6 +7,7 @@ import (
 )
 
 func pick(r *rand.Rand, xs ...string) string { return xs[r.Intn(len(xs))] }
+func pick2(r *rand.Rand, xs ...int) int      { return xs[r.Intn(len(xs))] }
 
 // ---------------------------------------------------------------- kind=prov
 
@@ -16,7 +17,11 @@ func genShoot(r *rand.Rand, names []string, malformed bool) string {
 		return pick(r, n+"(", n+")", n+"(1))", n+"(x)", n+"(1,y)", "("+n, n+"(1)(2)", n+"(1.5)", n+"(1 2)", "nosuch", "nosuch(2)",
 			n+"(99999999999999999999)", " "+n, n+" ", n+"(0x10)", n+"(1_0)")
 	}
-	switch r.Intn(14) {
+	switch r.Intn(15) {
+	case 14:
+		// large but ordinary numbers (round 4): counts beyond one byte, pauses beyond 15 / 16 bits of milliseconds
+		return pick(r, n+"(256)", n+"(257)", n+"(300,1)", n+"(1,32768)", n+"(1,40000)", n+"(2,65536)", n+"(3,70000)",
+			"sleep(32768)", "sleep(65536)", "sleep(70000)", n+"(1,86400000)")
 	case 0, 1, 2:
 		return n
 	case 3, 4:
@@ -43,6 +48,9 @@ func genWeights(r *rand.Rand, k int, odd bool) []string {
 	mul := 1
 	if r.Intn(2) == 0 {
 		mul = 1 + r.Intn(4)
+	}
+	if r.Intn(12) == 0 {
+		mul = pick2(r, 256, 65536, 32768, 1000) // weights beyond 8 / 16 bits (still < 1e6 with the factor below)
 	}
 	for i := range ws {
 		switch x := r.Intn(12); {
@@ -227,6 +235,9 @@ func genGun(r *rand.Rand, inst int) string {
 			case x <= 7:
 				return "e" + o + "." + pick(r, "v0", "v0", "v1", "w0", "nope", "f0")
 			case x == 8 && allowErr && r.Intn(4) == 0:
+				if r.Intn(2) == 0 {
+					return pick(r, "m1", "m2", "m3", "m4") // a template that does not parse / fails after writing literal text
+				}
 				return fmt.Sprintf("s%d", rows+r.Intn(3))
 			default:
 				return fmt.Sprintf("s%d", rn())
@@ -405,7 +416,30 @@ func genGun(r *rand.Rand, inst int) string {
 	if rows2 >= 0 {
 		l2 = fmt.Sprintf(" L2=%d", rows2)
 	}
-	return fmt.Sprintf("kind=gun inst=%d shots=%d L=%d%s rq=%s sc=%s or=%s", inst, shots, rows, l2, strings.Join(defs, ";"), strings.Join(scs, ";"), strings.Join(orc, "/"))
+	return fmt.Sprintf("kind=gun inst=%d shots=%d L=%d%s%s rq=%s sc=%s or=%s", inst, shots, rows, l2, genGunOpts(r), strings.Join(defs, ";"), strings.Join(scs, ";"), strings.Join(orc, "/"))
+}
+
+// genGunOpts: options of the gun that must not change what a shot does (see gunOptions in gun.go): answlog (filters all /
+// warning / error), httptrace trace / dump, a debug-level logger — alone and combined; "" two times out of three
+func genGunOpts(r *rand.Rand) string {
+	if r.Intn(3) != 0 {
+		return ""
+	}
+	var o string
+	switch r.Intn(4) {
+	case 0:
+		o = pick(r, "a", "w", "e")
+	case 1:
+		o = pick(r, "t", "u", "tu")
+	case 2:
+		o = "d"
+	default:
+		o = pick(r, "a", "w", "e", "") + pick(r, "t", "u", "tu", "") + pick(r, "d", "")
+	}
+	if o == "" {
+		return ""
+	}
+	return " go=" + o
 }
 
 // genSize: a size condition z<op><val>; the scripted bodies are 2 ({}), 7 (truncated JSON) or about 20 bytes long
@@ -487,8 +521,8 @@ func genGunPost(r *rand.Rand) string {
 	for j := 0; j < shots*3; j++ {
 		o = append(o, pick(r, "k", "k", "k", "k", "k", "s404", "e", "b", "t", "s201"))
 	}
-	return fmt.Sprintf("kind=gun inst=1 shots=%d L=2 rq=a:%s::::%s;b:G::%s::;c:G:::: sc=s1:1:0:a|b|c or=%s",
-		shots, pick(r, "G", "P"), strings.Join(post, "|"), strings.Join(refs, "|"), strings.Join(o, ","))
+	return fmt.Sprintf("kind=gun inst=1 shots=%d L=2%s rq=a:%s::::%s;b:G::%s::;c:G:::: sc=s1:1:0:a|b|c or=%s",
+		shots, genGunOpts(r), pick(r, "G", "P"), strings.Join(post, "|"), strings.Join(refs, "|"), strings.Join(o, ","))
 }
 
 // genFn: a template function as the value of a preprocessor mapping entry (code F…, see fnText in gun.go)
@@ -575,6 +609,46 @@ func genGunNext(r *rand.Rand, inst int) string {
 	return fmt.Sprintf("kind=gun inst=%d shots=%d L=%d rq=%s sc=s1:1:0:%s or=", inst, shots, rows, strings.Join(defs, ";"), strings.Join(shoots, "|"))
 }
 
+// genGunPause (round 4): focused cases for the UPPER bound of the pauses (ub=1, see pauseTooLong in gun.go): one instance,
+// one scenario a(1,P1)|b|c|sleep(P2)|a with pauses of 120..250 ms next to steps without a pause (the calibration), three or
+// four shots, a target that answers normally
+func genGunPause(r *rand.Rand) string {
+	p1, p2 := 150+10*r.Intn(11), 120+10*r.Intn(9)
+	sc := fmt.Sprintf("a(1,%d)|b|c|sleep(%d)|a", p1, p2)
+	if r.Intn(2) == 0 {
+		sc = fmt.Sprintf("b|a(1,%d)|c|b|sleep(%d)", p1, p2)
+	}
+	return fmt.Sprintf("kind=gun inst=1 shots=%d L=2 ub=1 rq=a:G::::;b:G::::;c:%s:::: sc=s1:1:0:%s or=", 3+r.Intn(2), pick(r, "G", "P"), sc)
+}
+
+// genGunTmplErr (round 4): focused cases for templates that cannot be used: request b carries a template that does not
+// parse (m1–m3) or fails after writing literal text (m4) in its URI, its body or an extra header; a precedes it, c follows
+// (and must not be executed); three or four shots, 1 or 4 instances — the failure must repeat on every shot, nothing of
+// the failed rendering may show up in a later request
+func genGunTmplErr(r *rand.Rand, inst int) string {
+	m := pick(r, "m1", "m2", "m3", "m4", "m4")
+	uri, body, xh := "clit", "", ""
+	switch r.Intn(3) {
+	case 0:
+		uri = "cpre|" + m + "|cpost"
+	case 1:
+		body = "pa.tok|" + m
+	default:
+		xh = pick(r, "x-extra", "url", "body") + "=" + m
+	}
+	method := "G"
+	if body != "" {
+		method = "P"
+	}
+	sc := pick(r, "a|b|c", "a|b|c", "a(2)|b|c", "c|a|b(2)|c")
+	shots := 3 + r.Intn(2)
+	if inst > 1 {
+		shots = 8 + r.Intn(5)
+	}
+	return fmt.Sprintf("kind=gun inst=%d shots=%d L=3%s rq=a:G:::pa.tok:jtok=tok;b:%s::%s:%s::%s;c:G::pa.tok|eb.v0:: sc=s1:1:0:%s;s2:1:0:a|c or=",
+		inst, shots, genGunOpts(r), method, uri, body, xh, sc)
+}
+
 // ---------------------------------------------------------------- kind=first
 
 func genFirst(r *rand.Rand, mode string, thorough bool) string {
@@ -651,8 +725,10 @@ func genExhaustive() []string {
 
 func gen(r *rand.Rand, tier string) []string {
 	nProv, nGun1, nGun4, nCtl, nPar, nPost, nFn, nNext := 800, 340, 170, 12, 4, 160, 70, 50
+	nPause := 6
 	if tier == "thorough" {
 		nProv, nGun1, nGun4, nCtl, nPar, nPost, nFn, nNext = 16000, 6000, 3000, 300, 40, 3000, 1500, 1000
+		nPause = 40
 	}
 	var out []string
 	for i := 0; i < nCtl; i++ {
@@ -660,6 +736,16 @@ func gen(r *rand.Rand, tier string) []string {
 	}
 	for i := 0; i < nPar; i++ {
 		out = append(out, genFirst(r, "par", tier == "thorough"))
+	}
+	for i := 0; i < nPause; i++ {
+		out = append(out, genGunPause(r))
+	}
+	for i := 0; i < 5*nPause; i++ {
+		inst := 1
+		if i%5 == 4 {
+			inst = 4
+		}
+		out = append(out, genGunTmplErr(r, inst))
 	}
 	for i := 0; i < nProv; i++ {
 		out = append(out, genProv(r))
